@@ -181,6 +181,7 @@ type Obligation struct {
 	Note   string
 	Imprecise bool
 	Clause *Clause
+	Snap   *replaySnap
 	Entry  string
 	// results
 	Result string // "unsat"(discharged) | "sat" | "unknown" | "folded"
